@@ -176,7 +176,7 @@ pub fn check_spans(prop: &str, case: &AstCase, ctx: &mut Ctx) -> Verdict {
 }
 
 pub fn span_cfg() -> GenCfg {
-    let mut cfg = GenCfg::basic(&['a', 'b', 'x', '𐐀']);
+    let mut cfg = GenCfg::basic(&['a', 'b', 'x', 'A', '𐐀']);
     cfg.w_empty = 0;
     cfg.w_anchor = 1;
     cfg.w_backref = 1;
